@@ -100,6 +100,7 @@ func main() {
 			os.Exit(2)
 		}
 		ctx.Prop = rf.Property
+		ctx.Opt["expect"] = rf.Key
 		if p.Setup != nil {
 			p.Setup(ctx)
 		}
@@ -120,6 +121,10 @@ func main() {
 		p.Setup(ctx)
 	}
 
+	maxViolations := 10
+	if v := opts["maxviol"]; v != "" {
+		fmt.Sscanf(v, "%d", &maxViolations)
+	}
 	start := time.Now()
 	res := &result{Prop: *prop, Shard: *shard, Stats: ctx.Stats}
 	seenKeys := map[string]bool{}
@@ -159,12 +164,26 @@ func main() {
 	// wall-clock watchdog: a backstop for loops in code without ticks
 	var caseIdx atomic.Int64
 	limit := 60.0
+	memLimit := uint64(3) << 30
+	if v := opts["memlimit_mb"]; v != "" {
+		var mb uint64
+		fmt.Sscanf(v, "%d", &mb)
+		memLimit = mb << 20
+	}
 	if v := opts["watchdog"]; v != "" {
 		fmt.Sscanf(v, "%g", &limit)
 	}
 	go func() {
 		for {
-			time.Sleep(500 * time.Millisecond)
+			time.Sleep(250 * time.Millisecond)
+			var ms runtime.MemStats
+			runtime.ReadMemStats(&ms)
+			if ms.HeapAlloc > memLimit {
+				buf := make([]byte, 1<<20)
+				n := runtime.Stack(buf, true)
+				fmt.Fprintf(os.Stderr, "WATCHDOG-MEMORY case=%d heap %d MiB exceeds the limit; executing: %v\n%s\n", caseIdx.Load(), ms.HeapAlloc>>20, zz.CurrentDesc.Load(), buf[:n])
+				os.Exit(5)
+			}
 			st := zz.ExecStart.Load()
 			if st == 0 {
 				continue
@@ -190,7 +209,7 @@ func main() {
 			res.Samples = append(res.Samples, map[string]any{"case": idx, "detail": cr.Sample})
 		}
 		for _, v := range cr.Violations {
-			if seenKeys[v.Key] || len(res.Violations) >= 10 {
+			if seenKeys[v.Key] || len(res.Violations) >= maxViolations {
 				continue
 			}
 			seenKeys[v.Key] = true
